@@ -30,10 +30,10 @@ RULE = ("Random (cash balance of either sign 1e-2..1e9, reference rate in [-0.05
         "purchase; empty-target rebalances accrue the same amount and report it. Non-trivial = k >= 2 cuts and (negative balance "
         "or markup > 0 or query/rebalance interleaved).")
 ASSUMPTIONS = ["rate constant over the interval (the property's premise)", "relative tolerance 1e-10 against the closed form"]
-REQUIRED = ["C06:split-invariance", "C06:same-instant-zero", "C06:earlier-time-rejected", "C06:query-changes-nothing",
+REQUIRED = ["C06:episode-balance-independent-of-requoting", "C06:split-invariance", "C06:same-instant-zero", "C06:earlier-time-rejected", "C06:query-changes-nothing",
             "C06:twin-query-bit-identical", "C06:positive-never-charged", "C06:negative-charged-at-r+m",
             "C06:margin-earns-nothing", "C06:rebalance-reports-interest", "C06:failed-rebalance-accrues-once"]
-REQUIRED_CATS = ["fee-schedule-installed-after-construction", "process-in-a-dst-time-zone", "base-currency-not-the-default", "refused-request-then-accrual", "query-beyond-next-accrual", "rate-quote-type:f32", "rate-quote-type:int", "rate-quoted-two-sided", "sub-second-spacing", "tz-aware-changing-offsets"]
+REQUIRED_CATS = ["episode-rate-quoted-sparsely", "fee-schedule-installed-after-construction", "process-in-a-dst-time-zone", "base-currency-not-the-default", "refused-request-then-accrual", "query-beyond-next-accrual", "rate-quote-type:f32", "rate-quote-type:int", "rate-quoted-two-sided", "sub-second-spacing", "tz-aware-changing-offsets"]
 REQUIRED_HITS = ["Broker.accrued_interest"]
 TECHNIQUE = "runtime monitoring: closed-form reference model (60-digit decimal) and twin runs over generated accrual schedules"
 LEVEL_TEXT = ("Exploration. The real Broker.accrued_interest / Broker.rebalance are driven through thousands of generated accrual "
@@ -79,7 +79,52 @@ def ref(bal, rate, markup, secs):
     return out
 
 
+def env_episode_scenario(ctx):
+    """Interest inside a TradingEnv episode: idle cash, null decisions, a constant reference rate that is quoted ONCE at
+    the start (or every few days) - against the same episode with the unchanged rate re-quoted at every timestep.  The
+    balance over a constant-rate interval does not depend on how often the rate is repeated, and it grows."""
+    import numpy as np
+    from tradingenv.env import TradingEnv
+    from tradingenv.spaces import BoxPortfolio
+    from tradingenv.transmitter import Transmitter
+    rng = ctx.rng
+    r_ = rng.choice([0.05, 0.02, 0.11])
+    mk_ = rng.choice([0.0, 0.01])
+    n = rng.randint(6, 30)
+    stepd = rng.choice([1, 3, 10])
+    every = rng.choice([None, None, 4, 7])          # None: quoted once, at the first timestep
+    t0 = datetime(2021, 1, 4)
+    grid = [t0 + timedelta(days=stepd * k) for k in range(n)]
+    i0 = rng.choice([0, 0, 2])                       # (a later fold start: the rate quote is then part of the replay)
+    out = []
+    for dense in (False, True):
+        rate_c = Rate("R")
+        evs = [EventNBBO(t, ETF("A"), 10.0, 10.0) for t in grid]
+        for k, t in enumerate(grid):
+            if dense or k == 0 or (every and k % every == 0):
+                evs.append(EventNBBO(t, rate_c, r_, r_))
+        tr = Transmitter(grid, {"training-set": [grid[i0], grid[-1]]})
+        tr.add_events(evs)
+        env = TradingEnv(action_space=BoxPortfolio([ETF("A")]), transmitter=tr, initial_cash=1000.0,
+                         broker_fees=BrokerFees(markup=mk_, interest_rate=rate_c))
+        env.reset()
+        done = False
+        k = 0
+        while not done and k < n + 2:
+            done = env.step(np.array([0.0]))[2]
+            k += 1
+        out.append(env.broker.holdings_quantity[Cash()])
+    sparse, dense = out
+    ctx.check("C06:episode-balance-independent-of-requoting", abs(sparse - dense) <= 1e-9 * dense and dense > 1000.0,
+              sparse=sparse, dense=dense, rate=r_, markup=mk_, steps=n, step_days=stepd, requoted_every=every, fold_start=i0)
+    ctx.cat("episode-rate-quoted-sparsely")
+    ctx.nontrivial = True
+    ctx.sample = {"scenario": "TradingEnv episode, rate quoted sparsely vs at every step", "rate": r_, "markup": mk_, "steps": n}
+
+
 def case(ctx, i, tier):
+    if i % 25 == 12:
+        return env_episode_scenario(ctx)
     if i % 7 == 3:
         # the process runs in a local time zone with daylight saving; the (naive) accrual instants straddle a switch
         from vf import core
